@@ -13,8 +13,21 @@ import (
 // seeded RNG and enriching the abstract message with the digests of what was
 // chosen (so the trace carries them).
 type Concretiser struct {
-	X   *Exec
-	Rng *rand.Rand
+	X        *Exec
+	Rng      *rand.Rand
+	stmtOids map[string][]int // statement name -> declared parameter types of the last Parse sent under it
+}
+
+func formatOf(codes []any, i int) int {
+	switch {
+	case len(codes) == 0:
+		return 0
+	case len(codes) == 1:
+		return AsInt(codes[0])
+	case i < len(codes):
+		return AsInt(codes[i])
+	}
+	return AsInt(codes[0])
 }
 
 func (c *Concretiser) randText(max int) string {
@@ -52,20 +65,39 @@ func (c *Concretiser) prepScript(q M) string {
 		if _, has := st["id"]; !has {
 			st["id"] = id
 		}
+		cols := L(st, "cols")
 		for _, ov := range L(st, "prog") {
 			op := AsM(ov)
 			if S(op, "op") != "row" {
 				continue
 			}
-			for _, cv := range L(op, "cells") {
+			for i, cv := range L(op, "cells") {
 				cell := AsM(cv)
+				oid := 25
+				if i < len(cols) {
+					oid = I(AsM(cols[i]), "oid")
+				}
+				ti := Types[oid]
 				switch S(cell, "c") {
 				case "v":
-					if _, has := cell["val"]; !has {
-						cell["val"] = pgw.Dig([]byte("v" + c.randText(12)))
+					if _, has := cell["_val"]; has {
+						continue
 					}
+					if v, has := cell["val"]; has && oid == 25 {
+						cell["_val"] = strings.TrimPrefix(fmt.Sprint(v), "s:")
+						continue
+					}
+					val, canon := ti.Gen(c.Rng)
+					for canon == "" { // an empty rendering is the "empty" class
+						val, canon = ti.Gen(c.Rng)
+					}
+					cell["_val"] = val
+					cell["val"] = pgw.Dig([]byte(canon))
 				case "empty":
 					cell["val"] = pgw.Dig(nil)
+					cell["_val"] = ""
+				case "null":
+					cell["_val"] = TypedNull(oid, S(cell, "nk"))
 				}
 			}
 		}
@@ -140,34 +172,64 @@ func (c *Concretiser) Bytes(m M) []byte {
 		return pgw.Query(c.prepScript(Sub(m, "q")))
 	case "P":
 		oids := make([]uint32, I(m, "noids"))
+		if c.stmtOids == nil {
+			c.stmtOids = map[string][]int{}
+		}
+		var declared []int
+		if sts := L(Sub(m, "q"), "stmts"); len(sts) == 1 {
+			for _, o := range L(AsM(sts[0]), "oids") {
+				declared = append(declared, AsInt(o))
+			}
+		}
+		c.stmtOids[S(m, "name")] = declared
 		return pgw.Parse(S(m, "name"), c.prepScript(Sub(m, "q")), oids)
 	case "B":
 		var params [][]byte
-		for _, pv := range L(m, "params") {
+		declared := c.stmtOids[S(m, "stmt")]
+		for i, pv := range L(m, "params") {
 			p := AsM(pv)
 			if B(p, "null") {
 				params = append(params, nil)
 				continue
 			}
+			oid := 25
+			if i < len(declared) && declared[i] != 0 {
+				oid = declared[i]
+			}
 			var b []byte
+			scan := ""
 			if raw, has := p["_b"]; has {
 				b = raw.([]byte)
-			} else if d, has := p["dig"]; has && strings.HasPrefix(fmt.Sprint(d), "s:") {
-				b = []byte(strings.TrimPrefix(fmt.Sprint(d), "s:"))
-			} else {
-				switch S(p, "cls") {
+				scan = string(b)
+			} else if cls, has := p["cls"]; has {
+				switch cls {
 				case "empty":
 					b = []byte{}
 				case "nul":
 					b = append([]byte("a\x00b"), c.randBytes(6)...)
 				default:
-					b = []byte("p" + c.randText(10))
+					val, canon := Types[oid].Gen(c.Rng)
+					b = EncodeOwn(oid, formatOf(L(m, "pfmt"), i), val, canon)
+					scan = canon
 				}
+				if cls != "short" {
+					scan = string(b)
+					if oid == 17 {
+						scan = fmt.Sprintf("%x", b)
+					}
+				}
+			} else if d, has := p["dig"]; has && strings.HasPrefix(fmt.Sprint(d), "s:") {
+				b = []byte(strings.TrimPrefix(fmt.Sprint(d), "s:"))
+				scan = string(b)
+			} else {
+				b = []byte("p" + c.randText(10))
+				scan = string(b)
 			}
 			if b == nil {
 				b = []byte{}
 			}
 			p["dig"] = pgw.Dig(b)
+			p["scan"] = pgw.Dig([]byte(scan))
 			delete(p, "cls")
 			params = append(params, b)
 		}
